@@ -118,6 +118,12 @@ Theorem C20_console_counts : forall truthy f r lines s,
 Proof. exact thm_console_counts. Qed.
 Print Assumptions C20_console_counts.
 
+(* "No test found or no matching test in the report" is printed only when no test of the report satisfies the filter *)
+Theorem C20_console_no_test : forall truthy f r, console_short truthy f r = VOk CNoTest ->
+  filter (fun t => f (t_result t)) (all_tests r) = [].
+Proof. exact console_no_test. Qed.
+Print Assumptions C20_console_no_test.
+
 Theorem C20_console_labels : forall t, status_in_enum (r_status (t_result t)) ->
   (label_of t = LOK <-> r_status (t_result t) = Some s_passed) /\ (label_of t = LKO <-> r_status (t_result t) = Some s_failed).
 Proof. exact thm_console_labels. Qed.
